@@ -526,6 +526,31 @@ func (in *interp) checkInitInTxn(w *wtxn, t int) {
 
 func (in *interp) initWatch(o Op) string {
 	t := in.table(o.T)
+	// one time in three: ask inside an open write transaction that holds the
+	// table (its own registrations count; the channel is judged at its Commit)
+	if o.H%3 == 1 {
+		for _, w := range in.ws {
+			if !w.locked[t] {
+				continue
+			}
+			w.opIdx = append(w.opIdx, in.step)
+			ts := w.st.tables[t]
+			ok, ch := in.tbls[t].Initialized(w.txn)
+			if ok != (len(ts.pending) == 0) {
+				in.viol("C19", "init-state", "inside the transaction t%d reports Initialized=%v; model pending=%v", t, ok, ts.pending)
+			}
+			if !ok {
+				if isClosed(ch) {
+					in.viol("C19", "init-early", "Initialized(wtxn) of t%d (uninitialized in the transaction) returned a closed channel", t)
+				}
+				if len(in.iwatches) < 16 {
+					in.iwatches = append(in.iwatches, &initWatch{ch: ch, table: t, viaTxn: w})
+				}
+				in.res.class("init_watch_retained_in_txn")
+			}
+			return fmt.Sprintf("initwatch-in-txn %v", ok)
+		}
+	}
 	rtxn := in.db.ReadTxn()
 	ts := in.cur.tables[t]
 	ok, ch := in.tbls[t].Initialized(rtxn)
